@@ -182,12 +182,28 @@ twice, and if both runs report the identical violation it is reported as a
 deterministic *history-dependent* violation whose replayable witness is the
 shard (section 10).
 
-After these changes all 204 are reported. The table is generated from the last
+Ninth round: 17 more (one per property) on the theme "two cooperating sites
+and state carried between calls": memos and lazily built tables keyed by part
+of what they depend on, fast paths in front of the general path, buffers and
+queues reused between rounds, values precomputed at construction. 15 were
+reported at once. The two misses were both one-entry memos whose collision
+needs two *adjacent* uses that differ in exactly one respect: the '88
+load-file reader skipping the B-mode validation when the previous line had the
+same mnemonic and A-mode (C10: the canonical files never repeated an opcode;
+every ordered pair of line forms is now enumerated, section 10), and a
+process-wide table of the predefined constants keyed without the minimum
+distance (C14: all configurations used together in one process differed in
+several fields; configuration neighbourhoods are now walked in one process).
+Before the round, reading the property texts for paths no engine drove found
+the `-A` option itself: C16 checked `LoadCode()` through the library only; it
+now also runs `cmd/gmars -A` with two files per invocation.
+
+After these changes all NSEEDS are reported. The table is generated from the last
 run of every seed against the current machinery. (Two of the agents also
 pointed out defects of the unchanged tree while reading: D20 and D21 of
 section 11.)
 
-''' + '\n'.join(table) + '\n'
+'''.replace('NSEEDS', str(len(rows))) + '\n'.join(table) + '\n'
 pl = json.load(open('/verif/seeded/planned/results.json'))
 rows2 = []
 for k in sorted(pl, key=lambda x: (pl[x]['property'], x)):
